@@ -3,7 +3,6 @@ package spec
 import (
 	"go/ast"
 	"go/token"
-	"go/types"
 	"regexp"
 	"sort"
 	"strings"
@@ -16,7 +15,7 @@ func init() {
 	register(&Spec{
 		ID:          "C16",
 		Loads:       []LoadSpec{{Patterns: []string{"./payments/db"}}},
-		Explanation: "Decides that the status function implements the documented 16-row table (so a payment with a settled attempt is never failed), that its four inputs are set only from the attempts' Failure/Settle fields and the failure reason, that the status predicates admit exactly the documented statuses, that Status/State are written only by setState from decidePaymentStatus below `sent <= total`, that Registrable and verifyAttempt hold the amount and terminal-state guards, and that in both stores every write of InitPayment / RegisterAttempt / SettleAttempt / FailAttempt / Delete* is reachable only through its gate, evaluated inside the same transaction on a status derived from the stored payment; the key-value store additionally refuses to settle or fail an attempt that already has a settle or fail record.",
+		Explanation: "Decides that the status function implements the documented 16-row table (so a payment with a settled attempt is never failed), that its four inputs are set only from the attempts' Failure/Settle fields and the failure reason, that the status predicates admit exactly the documented statuses, that Status/State are written only by setState from decidePaymentStatus below `sent <= total`, that Registrable and verifyAttempt hold the amount and terminal-state guards, and that in both stores every write of InitPayment / RegisterAttempt / SettleAttempt / FailAttempt / Delete* is reachable only through its gate, evaluated inside the same transaction on a status derived from the stored payment; the key-value store additionally refuses to settle or fail an attempt that already has a settle or fail record. After the repairs of round 4 (c16_fix4.go): amounts are added only through a saturating helper whose body is evaluated on boundary values; the kv hop codec persists and reads back every record verifyAttempt decides on; FinalHop() is dereferenced only below its nil test; both loaders list attempts by attempt id; the sql bulk delete's time window excludes nothing; every kv lookup by payment hash answers ErrPaymentNotInitiated; verifyAttempt's MPP / AMP / blinded rejections sit under exactly their mismatch conditions and stop the admission.",
 		NotDecided: []string{
 			"concurrent histories (transaction isolation of bbolt / SQL is assumed)", "SQL statements and constraints of the native SQL store (e.g. the once-only attempt resolution there)",
 			"agreement of the two backends on whole histories",
@@ -233,7 +232,7 @@ func runC16(r *an.Run) {
 		})
 
 	r.Obl("status-and-state-derivation", "WHO",
-		"MPPayment.Status and MPPayment.State are written only by setState, from decidePaymentStatus(m.HTLCs, m.FailureReason) and below `sentAmt <= m.Info.Value` with RemainingAmt = total - sent; SentAmt skips failed attempts only; decidePaymentStatus is called only by setState and the SQL resolution shortcut; both stores' payment loaders call setState; m.Status is the unmodified result of decidePaymentStatus, m.State a literal whose five fields are exactly len(m.InFlightHTLCs()), m.Info.Value - SentAmt()#0, SentAmt()#1, TerminalInfo()#0 != nil, TerminalInfo()#1 != nil (setState's locals are never reassigned); SentAmt returns (sum of receiver amounts, sum of fees) in that order; TerminalInfo returns a settled attempt of m.HTLCs or the failure reason; no MPPayment literal sets Status or State (legacy duplicate payments aside); the SQL shortcut marks the attempt at each row's position with Settle for a settled row, Failure for a failed one, nothing only for NULL, and passes that list and the stored (Valid) failure reason",
+		"MPPayment.Status and MPPayment.State are written only by setState, from decidePaymentStatus(m.HTLCs, m.FailureReason) and below `sentAmt <= m.Info.Value` with RemainingAmt = total - sent; SentAmt skips failed attempts only and grows its first result, once per non-failed attempt, only by `sum = addMsatSaturating(sum, h.Route.ReceiverAmt())` (never by a plain `+` / `+=`: the sum is compared against the payment amount and must not wrap), its second only by h.Route.TotalFees(); decidePaymentStatus is called only by setState and the SQL resolution shortcut; both stores' payment loaders call setState; m.Status is the unmodified result of decidePaymentStatus, m.State a literal whose five fields are exactly len(m.InFlightHTLCs()), m.Info.Value - SentAmt()#0, SentAmt()#1, TerminalInfo()#0 != nil, TerminalInfo()#1 != nil (setState's locals are never reassigned); SentAmt returns (sum of receiver amounts, sum of fees) in that order; TerminalInfo returns a settled attempt of m.HTLCs or the failure reason; no MPPayment literal sets Status or State (legacy duplicate payments aside); the SQL shortcut marks the attempt at each row's position with Settle for a settled row, Failure for a failed one, nothing only for NULL, and passes that list and the stored (Valid) failure reason",
 		"a status set by hand, or computed from another attempt list, is not 'exactly the documented function of the attempts and failure reason'", 10,
 		func(o *an.Obl) {
 			ss := p.Func(pd + "MPPayment.setState")
@@ -367,55 +366,11 @@ func runC16(r *an.Run) {
 					}
 				}
 			}
-			// SentAmt
-			sa := p.Func(pd + "MPPayment.SentAmt")
-			k := 0
-			for _, v := range sa.Graph().V {
-				as, ok := v.Node.(*ast.AssignStmt)
-				if !ok || as.Tok != token.ADD_ASSIGN || an.Text(as.Lhs[0]) != "sent" {
-					continue
-				}
-				k++
-				s := an.Site{Fn: sa, V: v, Node: as}
-				guarded(o, sa, s, an.IsNil(an.FieldPath(nil, "Failure"), true, "h.Failure == nil"))
-				if hdr := enclosingLoopHeader(sa, as); hdr != "$recv.HTLCs" {
-					o.FailAt(sa.ID+"#loop", s.Where(), "SentAmt sums over %s", hdr)
-				}
-				// every non-failed attempt counted: the only way to skip is the Failure test
-				everyIterationOr(o, sa, `^\$recv\.HTLCs$`, []an.Site{s}, an.IsNil(an.FieldPath(nil, "Failure"), false, "h.Failure != nil"), "sent += amount")
-			}
-			if k != 1 {
-				o.FailAt(sa.ID+"#sum", sa.Where(sa.Body.Pos()), "SentAmt has %d accumulation sites", k)
-			}
-			// which sum is which: the first result is the one that grew by the
-			// receiver amounts, the second the one that grew by the fees; both
-			// only ever grow by those
-			sumObj := map[string]types.Object{}
-			for _, v := range sa.Graph().V {
-				as, ok := v.Node.(*ast.AssignStmt)
-				if !ok || as.Tok != token.ADD_ASSIGN || len(as.Lhs) != 1 {
-					continue
-				}
-				id, ok := as.Lhs[0].(*ast.Ident)
-				if !ok {
-					continue
-				}
-				switch sa.Canon(as.Rhs[0]) {
-				case "$elem($recv.HTLCs).Route.ReceiverAmt()":
-					sumObj["sent"] = sa.Info().Uses[id]
-					c15PinnedWrites(o, sa, id.Name, "", `^\+= \$elem\(\$recv\.HTLCs\)\.Route\.ReceiverAmt\(\)$`)
-				case "$elem($recv.HTLCs).Route.TotalFees()":
-					sumObj["fees"] = sa.Info().Uses[id]
-					c15PinnedWrites(o, sa, id.Name, "", `^\+= \$elem\(\$recv\.HTLCs\)\.Route\.TotalFees\(\)$`)
-				}
-			}
-			for _, s := range sa.Returns() {
-				rs := s.Node.(*ast.ReturnStmt)
-				o.Site("SentAmt returns %s", an.Text(rs))
-				if len(rs.Results) != 2 || sumObj["sent"] == nil || sumObj["fees"] == nil || !c15IdentIs(sa.Info(), rs.Results[0], sumObj["sent"]) || !c15IdentIs(sa.Info(), rs.Results[1], sumObj["fees"]) {
-					o.FailAt(sa.ID+"#result-order", s.Where(), "SentAmt returns `%s`, expected (sum of receiver amounts, sum of fees)", an.Text(rs))
-				}
-			}
+			// SentAmt: which sum is which (the first result is the one that grew
+			// by the receiver amounts, the second the one that grew by the fees),
+			// that both only ever grow by those, once per non-failed attempt, and
+			// that the receiver amounts are added without wrapping (c16_fix4.go)
+			c16f4SentAmt(o, p)
 			// TerminalInfo: a settled attempt of the payment's own list, else
 			// the payment's failure reason
 			ti := p.Func(pd + "MPPayment.TerminalInfo")
@@ -515,17 +470,6 @@ func runC16(r *an.Run) {
 				o.Site("%s derives the payment state (%d calls)", f.ID, len(cs))
 				mustPass(o, f, "SetState", cs, an.OkErrNil, f.StrictSuccessReturnsOrNilPtr())
 			}
-			// what is summed: the amount the receiver gets on each non-failed attempt
-			for _, v := range sa.Graph().V {
-				as, ok := v.Node.(*ast.AssignStmt)
-				if !ok || as.Tok != token.ADD_ASSIGN {
-					continue
-				}
-				want := map[string]string{"sent": "$elem($recv.HTLCs).Route.ReceiverAmt()", "fees": "$elem($recv.HTLCs).Route.TotalFees()"}[an.Text(as.Lhs[0])]
-				if c := sa.Canon(as.Rhs[0]); want != "" && c != want {
-					o.FailAt(sa.ID+"#operand-"+an.Text(as.Lhs[0]), sa.Where(as.Pos()), "%s accumulates %s, expected %s", an.Text(as.Lhs[0]), c, want)
-				}
-			}
 			reach := p.Reachable(pd + "fetchPaymentWithCompleteData")
 			if !reach[pd+"MPPayment.SetState"] && !reach[pd+"MPPayment.setState"] {
 				o.FailAt(pd+"fetchPaymentWithCompleteData#setState", "", "the SQL loader no longer reaches setState")
@@ -533,7 +477,7 @@ func runC16(r *an.Run) {
 		})
 
 	r.Obl("attempt-admission", "GUARD",
-		"Registrable returns nil only when the status is updatable and, if attempts are in flight, no attempt has settled and the payment has not failed; verifyAttempt returns nil only below `sentAmt + amt <= payment.Info.Value` with sentAmt from payment.SentAmt() and amt the attempt's receiver amount, and (for a non-MPP, non-blinded attempt) amt == payment value",
+		"Registrable returns nil only when the status is updatable and, if attempts are in flight, no attempt has settled and the payment has not failed; verifyAttempt returns nil only below `addMsatSaturating(sentAmt, amt) <= payment.Info.Value` (the saturating sum, in either argument order, held in a local defined once; a plain `sentAmt + amt` is not accepted: it wraps for an amount near 2^64) with sentAmt from payment.SentAmt() and amt the attempt's receiver amount, and (for a non-MPP, non-blinded attempt) amt == payment value",
 		"an attempt admitted beyond the payment amount, or after a settle, overpays the recipient", 6,
 		func(o *an.Obl) {
 			f := p.Func(pd + "MPPayment.Registrable")
@@ -562,7 +506,7 @@ func runC16(r *an.Run) {
 				if !an.IsNilIdent(g.Info(), s.Node.(*ast.ReturnStmt).Results[0]) {
 					continue
 				}
-				guarded(o, g, s, an.CmpX(canonTerm(`^\(\$p0\.SentAmt\(\)(#0)? \+ \$p1\.Route\.ReceiverAmt\(\)\)$`), an.LE, val, "sentAmt + amt <= payment.Info.Value"))
+				guarded(o, g, s, an.CmpX(c16f4SaturatedSum(`\$p0\.SentAmt\(\)(#0)?`, `\$p1\.Route\.ReceiverAmt\(\)`), an.LE, val, "addMsatSaturating(sentAmt, amt) <= payment.Info.Value"))
 				guarded(o, g, s, an.AnyOf("blinded, MPP, or exact amount",
 					an.Truth(an.LocalNamed("isBlinded"), true, ""),
 					an.IsNil(an.LocalNamed("mpp"), false, ""),
